@@ -134,6 +134,9 @@ impl<'r> Gen<'r> {
     fn ev(&mut self, line: String) -> Step {
         let k = line.split_whitespace().next().unwrap().to_string();
         *self.stats.entry(k).or_default() += 1;
+        if std::env::var("H_TCP_TRACE").is_ok() {
+            eprintln!("{}", line);
+        }
         let st = self.sim.step(&line);
         self.ops.push(line);
         for t in &st.txs {
@@ -505,7 +508,9 @@ impl<'r> Gen<'r> {
                 let v = |g: &mut Gen| if g.rng.chance(1, 4) { "-".to_string() } else { g.rng.pick(&[0i64, 1, 10, 100, 1000, 5000, 20000]).to_string() };
                 let e = match self.rng.below(5) {
                     0 => format!("set timeout={}", v(self)),
-                    1 => format!("set keepalive={}", v(self)),
+                    // keep-alive interval 0 makes Interface::poll emit keep-alives forever (every
+                    // dispatch re-arms the timer at `now`): excluded from the generated cases
+                    1 => format!("set keepalive={}", { let x = v(self); if x == "0" { "1".to_string() } else { x } }),
                     2 => format!("set ackdelay={}", v(self)),
                     3 => format!("set nagle={}", self.rng.below(2)),
                     _ => format!("set hoplimit={}", if self.rng.chance(1, 4) { "-".to_string() } else { self.rng.range(1, 255).to_string() }),
@@ -596,6 +601,12 @@ fn gen_case(rng: &mut Rng, id: String, tier: &str, stats: &mut BTreeMap<String, 
         seed,
         isns: std::mem::take(&mut isns),
     };
+    if std::env::var("H_TCP_TRACE").is_ok() {
+        let c = Case { id: id.clone(), cfg: cfg.header(), ops: vec![] };
+        let mut v = vec![];
+        c.write(&mut v);
+        eprint!("{}", String::from_utf8(v).unwrap().replace("end\n", ""));
+    }
     let sim = Sim::new(&cfg);
     let mut g = Gen {
         rng,
